@@ -400,8 +400,8 @@ def _buffer_container_types(P):
     return out
 
 
-def r3_emission_order(ctx):
-    ctx.set_rule('C03.R3')
+def r3_emission_order(ctx, rule='C03.R3'):
+    ctx.set_rule(rule)
     P = ctx.P
     f = ctx.anchor('des::net::runtime::ctx::buf_process')
     if not f:
